@@ -390,7 +390,8 @@ wrapint wrapint::lshr(wrapint x) const {
 // arithmetic right shift
 wrapint wrapint::ashr(wrapint x) const {
   sanity_check_bitwidths(x);
-  if (!msb()) {
+  if (!msb() || x._n == 0) {
+    // (shifting all_ones by _width below would be undefined for x = 0)
     return wrapint(_n >> x._n, _width, _mod);
   } else {
     // fill blanks with 1's
